@@ -158,7 +158,7 @@ func VH_C08_SiblingTypes() {
 // changes that child only: every sibling keeps its content, warm and cold runs
 // agree, both stay structurally valid and commit to identical registers.
 //
-//vh:prop C08 C10
+//vh:prop C08 C10 C07
 //vh:init cbor
 //vh:sched first
 //vh:param children 2 3
